@@ -24,7 +24,7 @@
  * H_LEVEL  BFS key lengths                       L (states n = 0..L)            BFS alignments
  *   0      {0,B,3B+1}                            B+2                            {0,1,31}
  *   1      {0,1,B-1,B,B+1,2B,2B+1,3B,3B+1}       2B                             {0,1,31}
- *   2      every k = 0..3B+1                     2B for the nine above, else B+2   {0,1,3,4,8,31,63} for the nine, else {0,1,31}
+ *   2      every k = 0..3B+1                     2B for the nine above, else B+2   {0,1,3,4,8,16,31,32,63} for the nine, else {0,1,31}
  * Both dead-byte poisons for the first two alignments (aligned + unaligned source), alternating after.
  */
 #define H_WITH_HMAC 1
@@ -84,7 +84,7 @@ bfs_params(const halg_t *A, size_t k, const int **al, size_t *L) {
 	if (is_boundary_key(A, k)) {
 		(*al) = h_aligns_sub;
 		(*L) = 2 * B;
-		return (7);
+		return (H_NSUB);
 	}
 	(*al) = h_aligns_3;
 	(*L) = B + 2;
@@ -96,7 +96,7 @@ bfs_params(const halg_t *A, size_t k, const int **al, size_t *L) {
 static void *
 make_h0(const halg_t *A, const char *var, size_t k) {
 	void *base, *H0 = h_ctx_alloc(A->hctx_size);
-	const uint8_t *key = h_src(ref_key, k, h_aligns_sub[k % 7], &base);
+	const uint8_t *key = h_src(ref_key, k, h_aligns_sub[k % H_NSUB], &base);
 
 	A->h_init(key, k, H0);
 	A->force(H0, var);		/* the hash context is the first member */
@@ -167,7 +167,7 @@ main(int argc, char **argv) {
 					vh_desc("klen=%zu", k);
 					for (mi = 0; mi < 6; mi ++) {
 						size_t m = ml[mi], i;
-						const uint8_t *src = h_src(ref_hmsg, m, h_aligns_sub[(k + (size_t)mi) % 7], &base);
+						const uint8_t *src = h_src(ref_hmsg, m, h_aligns_sub[(k + (size_t)mi) % H_NSUB], &base);
 
 						expected(ai, k, mi, want);
 						/* one update */
@@ -298,10 +298,10 @@ main(int argc, char **argv) {
 					if (!vh_begin((0 == which) ? t_one : ((1 == which) ? t_gd : t_gds)))
 						continue;
 					vh_desc("klen=%zu", k);
-					key = h_src(ref_key, k, h_aligns_sub[(k + 2) % 7], &kbase);
+					key = h_src(ref_key, k, h_aligns_sub[(k + 2) % H_NSUB], &kbase);
 					for (mi = 0; mi < 6; mi ++) {
 						size_t m = ml[mi], sz = 0xdead;
-						const uint8_t *src = h_src(ref_hmsg, m, h_aligns_sub[(k + (size_t)mi + 5) % 7], &mbase);
+						const uint8_t *src = h_src(ref_hmsg, m, h_aligns_sub[(k + (size_t)mi + 5) % H_NSUB], &mbase);
 						int with_size = ((k + (size_t)mi) & 1) ? 0 : 1;
 
 						expected(ai, k, mi, want);
